@@ -315,6 +315,8 @@ func run(r *core.Run) {
 			r.Check(out != core.Panic, "panic:"+op, op+" panics on tag-rich garbage")
 		}
 	}
+	// 6. generated client sessions through the real proxies: no proxy goroutine may panic
+	runProxySessions(r)
 }
 
 // commentWitnesses: statements that crashed the pinned tree (ExtractMysqlComment sliced sql[0:-1] when
